@@ -1,0 +1,21 @@
+//go:build verif
+
+package gutils
+
+// Contracts for the verification machinery (govc). Comments only; compiled (to
+// nothing) only under the build tag "verif".
+
+// lo8: what unicode.ToLower(rune(c)) computes on a byte c (exact 256-entry table of Go's unicode package)
+//@ pure func lo8(c int) int = lower(c)
+// a byte x matches e: equal, or equal after case folding when the search is case-insensitive
+//@ pure func crmatch(x int, e int, ic bool) bool = x == e || (ic && lo8(x) == lo8(e))
+//@ opaque func crinset(s []uint8, n int, e int, ic bool) bool = exists j :: 0 <= j && j < n && crmatch(s[j], e, ic)
+
+// ContainsRune: true iff some element of s matches e (with optional case folding); a pure query
+//@ func ContainsRune
+//@   props C12 C19
+//@   ensures result == crinset(s, len(s), e, ignoreCase)
+//@   modifies nothing
+//@   loop 1
+//@     invariant !crinset(s, $i, e, ignoreCase)
+//@     decreases len(s) - $i
